@@ -6,7 +6,7 @@
    other topic kinds (Sys/TopicKindsC07.v): p2p, me, fnd, sys. *)
 From Coq Require Import ZArith NArith List Bool.
 From Tinode Require Import Base.Util Pure.Acs Pure.Uid Pure.P2PName Pure.P2PProofs Sys.Topic Sys.TopicTac Sys.TopicMarks Sys.TopicAclC07 Sys.TopicAclC07Proofs
-  Sys.TopicAclC07Inv Sys.TopicAclC07Join Sys.TopicAclC07Own Sys.TopicAclC07Thm Sys.TopicAclC07Witness Sys.TopicAclC07BanF Sys.TopicKindsC07 Sys.TopicKindsC07Proofs.
+  Sys.TopicAclC07Inv Sys.TopicAclC07Join Sys.TopicAclC07Own Sys.TopicAclC07Thm Sys.TopicAclC07Witness Sys.TopicAclC07BanF Sys.TopicAclC07LoseJF Sys.TopicKindsC07 Sys.TopicKindsC07Proofs.
 Import ListNotations.
 Open Scope Z_scope.
 
@@ -103,6 +103,17 @@ Theorem c07_evicted_session_notified : forall f x c o who unsub skip,
       In (sid, (v, b)) (c_sess c') \/
       (v = who /\ no_sess c' who /\ (sid <> skip -> In (sid, Evicted unsub) (snd (step dr nr sm f x o)))).
 Proof. exact (ban_step_told_c07f dr nr sm). Qed.
+
+(* Losing J detaches: at EVERY step of EVERY history (any fault plan, from any state whose attached sessions
+   belong to cached subscribers), for every request other than {sub}: a user whose effective mode
+   (want & given of the cache entry) had J before the request and lacks it afterwards - ban by an approver,
+   self-ban, {del sub}, {leave unsub}: entry gone - has NO attached session afterwards, foreground or
+   background.  ({sub}: c07_selfban_by_sub_detaches_every_session.) *)
+Theorem c07_losing_join_detaches_every_session : forall x h f o c c',
+  inv_sm x -> ca (fst (run dr nr sm x h)) = Some c -> not_sub_c07f o = true ->
+  ca (fst (step dr nr sm f (fst (run dr nr sm x h)) o)) = Some c' ->
+  forall v, effj_c07f c v = true -> effj_c07f c' v = false -> no_sess c' v.
+Proof. exact (run_step_losej_c07f dr nr sm). Qed.
 End C07.
 
 (* evictUser itself: every session of the user is detached, of either kind, and each one except the
@@ -143,6 +154,12 @@ Example c07_ex_ban_background_only :
   (exists c', ca (fst r) = Some c' /\ cgiven c' 2%N = Some 14%N /\ no_sess c' 2%N /\
               In (2%N, Evicted false) (snd r) /\ In (3%N, Evicted false) (snd r)).
 Proof. exact bf_example_c07f. Qed.
+Example c07_ex_losing_join :
+  let x3 := fst (run bf_dr_c07f bf_nr_c07f bf_sm_c07f bf_x_c07f bf_h_c07f) in
+  inv_sm bf_x_c07f /\ not_sub_c07f bf_ban_c07f = true /\
+  exists c c', ca x3 = Some c /\ ca (fst (step bf_dr_c07f bf_nr_c07f bf_sm_c07f NoFault x3 bf_ban_c07f)) = Some c' /\
+    effj_c07f c 2%N = true /\ effj_c07f c' 2%N = false.
+Proof. exact bf_losej_example_c07f. Qed.
 
 (* The full statements are REFUTED by the faithful model; both witnesses are replayed on the
    real code (findings/C07.md). *)
@@ -280,6 +297,7 @@ Print Assumptions c07_evicted_session_notified.
 Print Assumptions c07_evict_detaches_every_session.
 Print Assumptions c07_selfban_detaches_every_session.
 Print Assumptions c07_selfban_by_sub_detaches_every_session.
+Print Assumptions c07_losing_join_detaches_every_session.
 Print Assumptions c07_sub_limit.
 Print Assumptions c07_no_join_no_attach_refuted.
 Print Assumptions c07_given_writers_refuted.
